@@ -6,6 +6,7 @@ import Quanto.Spec.C06
 import Quanto.AwqBits
 import Quanto.OpsWire
 import Quanto.Spec.C05
+import Quanto.Linear
 open Quanto
 
 /-- scalar-or-per-element lookup -/
@@ -185,6 +186,27 @@ def handle (toks : List String) : String :=
       let ys := ((parseNatList yb).map F.decode).toArray
       let rs := ((parseNatList rb).map F.decode).toArray
       firstFails ((List.range ys.size).map fun i => if specRescale Fc (qm.toNat! : Rat) k ys[i]! rs[i]! then "ok" else "rescale-error")
+  -- C07: lin07 kernel F x w bias
+  | ["lin07", kernel, f, xt, wt, bt] =>
+      let F := fmtOfName f
+      let bias : Option (T FV) := match parseOneVal bt with | .plain _ b => some b | _ => none
+      let res : Option (T FV) := match kernel, parseOneVal xt, parseOneVal wt with
+        | "fallbackfloat", .plain _ x, .plain _ w => some (linearFloat F x w bias)
+        | k, x, .qb w =>
+          let kk : MmKernel := match k with | "int" => .intMm | "pack" => .int8packMm | _ => .floatMm
+          (match x with
+           | .plain _ t => some (linearQBytes kk F (.plain t) w bias)
+           | .qb q => some (linearQBytes kk F (.quant q) w bias)
+           | _ => none)
+        | _, _, _ => none
+      match res with
+      | some r => s!"{showShape r.shape} {showFT F r}"
+      | none => "bad-op"
+  | ["route07", dev, act, weight, rows, inF, outF, ge24] =>
+      let pl (s : String) : Payload := match s with | "int8" => .int8 | "float8" => .float8 | "f32" => .f32 | "f16" => .f16 | _ => .bf16
+      let c : MmConfig := ⟨pl act, pl weight, rows.toNat!, inF.toNat!, outF.toNat!, ge24 == "1"⟩
+      let k := match dev with | "cpu" => routeCPU c | "cuda" => routeCUDA c | _ => routeMPS c
+      match k with | .floatMm => "float" | .intMm => "int" | .int8packMm => "pack"
   -- C04
   | ["pack", bits, shape, data] =>
       let t : T Nat := ⟨parseShape shape, (parseNatList data).toArray⟩
